@@ -173,6 +173,28 @@ Proof.
     constructor; [|exact F]. eapply v1_step_nonempty. exact S.
 Qed.
 
+(* both loaders look at a line only through line.rstrip(): a trailing "\r" is invisible *)
+Lemma sphinx_v2_step_strip uri proj ver s l :
+  sphinx_v2_step uri proj ver s (strip_cr l) = sphinx_v2_step uri proj ver s l.
+Proof. unfold SphinxInv.sphinx_v2_step. rewrite rstrip_strip_cr. reflexivity. Qed.
+
+Lemma sphinx_v2_fold_strip uri proj ver ls : forall s,
+  fold_left (sphinx_v2_step uri proj ver) (map strip_cr ls) s =
+  fold_left (sphinx_v2_step uri proj ver) ls s.
+Proof.
+  induction ls as [|l ls IH]; intro s; [reflexivity|]. cbn [map fold_left].
+  rewrite sphinx_v2_step_strip. apply IH.
+Qed.
+
+Lemma sphinx_v1_fold_strip uri proj ver ls : forall s,
+  sphinx_fold_v1 uri proj ver s (map strip_cr ls) = sphinx_fold_v1 uri proj ver s ls.
+Proof.
+  induction ls as [|l ls IH]; intro s; [reflexivity|]. cbn [map sphinx_fold_v1].
+  assert (E : sphinx_v1_step uri proj ver s (strip_cr l) = sphinx_v1_step uri proj ver s l).
+  { unfold sphinx_v1_step. rewrite rstrip_strip_cr. reflexivity. }
+  rewrite E. destruct (sphinx_v1_step uri proj ver s l); cbn [ibind]; [apply IH | reflexivity].
+Qed.
+
 (* every Sphinx item carries the project name and version of the header *)
 Definition all_pv (proj ver : str) (s : sinv_t) : Prop :=
   forall k n p v u d, sinv_lookup s k n = Some (p, v, u, d) -> p = proj /\ v = ver.
@@ -216,6 +238,23 @@ Proof.
     destruct (split_ws 2 (rstrip l)) as [|name [|typ [|loc [|x r]]]]; try discriminate.
     destruct (str_eqb typ s_mod); inversion S; subst; apply all_pv_insert; exact A.
 Qed.
+
+(* ---------------- the separator disagreement, characterised ---------------- *)
+
+(* Sphinx's entries for a body text T are MyST's entries for T with every line separator
+   (and every CR LF pair) replaced by "\n": the two loaders differ on T exactly as MyST
+   differs between T and its normalisation *)
+Theorem separator_characterisation uri proj ver T :
+  agree uri (fold_left v2_step (trim_last (split_nl (norm_seps T))) [])
+            (fold_left (sphinx_v2_step uri proj ver) (splitlines T) []).
+Proof. rewrite splitlines_norm. apply v2_fold_agree. apply agree_nil. Qed.
+
+Corollary separator_agreement_criterion uri proj ver T :
+  fold_left v2_step (trim_last (split_nl T)) [] =
+  fold_left v2_step (trim_last (split_nl (norm_seps T))) [] ->
+  agree uri (fold_left v2_step (trim_last (split_nl T)) [])
+            (fold_left (sphinx_v2_step uri proj ver) (splitlines T) []).
+Proof. intro H. rewrite H. apply separator_characterisation. Qed.
 
 End Agree.
 
@@ -385,7 +424,7 @@ Qed.
 Theorem agrees_v2 content uri base sinv :
   (let (fl, rest) := partition_nl content in brstrip fl = sphinx_hdr_v2) ->
   Forall (fun l => decode l <> None) (firstn 4 (bsplit_nl 4 content)) ->
-  (forall text, sphinx_text content = Some text -> nosep text) ->
+  (forall text, sphinx_text content = Some text -> crlf_only text) ->
   sphinx_loads content uri = IOk sinv ->
   exists inv, load [content] base = IOk inv /\ agree uri (inv_objects inv) sinv /\
               (plain_header content -> same_project inv sinv).
@@ -429,7 +468,7 @@ Proof.
   rewrite O1, O2.
   fold (lines_of decode body). rewrite (lines_of_decoded body text T). cbn [fst snd].
   rewrite fold_lines_pure. cbn [ibind]. eexists. split; [reflexivity|].
-  cbn [inv_objects mk_inv]. rewrite (splitlines_nosep text NS). split.
+  cbn [inv_objects mk_inv]. rewrite (splitlines_crlf text NS), sphinx_v2_fold_strip. split.
   - apply v2_fold_agree. apply agree_nil.
   - intro PH. unfold plain_header in PH. rewrite (bsplit_S 3 content p0 F0) in PH.
     fold rest in PH. rewrite B in PH. cbn [firstn] in PH.
@@ -481,7 +520,7 @@ Ltac rw_trim H t X N :=
 
 Theorem agrees_v1 content uri base sinv :
   (let (fl, rest) := partition_nl content in brstrip fl = sphinx_hdr_v1) ->
-  (forall text, sphinx_text content = Some text -> nosep text) ->
+  (forall text, sphinx_text content = Some text -> crlf_only text) ->
   sphinx_loads content uri = IOk sinv ->
   exists inv, load [content] base = IOk inv /\ agree uri (inv_objects inv) sinv /\
               same_project inv sinv.
@@ -502,7 +541,7 @@ Proof.
   change sphinx_hdr_v1 with hdr_v1. rewrite str_eqb_refl.
   destruct (dec rest) as [text|] eqn:T; cbn [ibind] in HS; [|discriminate].
   apply dec_ok_inv in T. specialize (NS text T).
-  rewrite (splitlines_nosep text NS) in HS.
+  rewrite (splitlines_crlf text NS) in HS.
   assert (P := decode_split decode O_decode (length rest) rest text (le_n _) T).
   unfold sphinx_loads_v1 in HS. unfold LoadProofs.load_v1_spec, a_readline.
   destruct (find_nl rest) as [p1|] eqn:F1.
@@ -519,7 +558,8 @@ Proof.
   - rewrite (split_nl_some _ _ F2) in P1.
     destruct (map_decode_cons _ _ _ P1) as [t2 [X2 [EX2 [E2 P2]]]]. rewrite EX2 in HS.
     assert (N2 : X2 <> []) by (eapply map_nonempty; [exact P2 | apply split_nl_nonempty]).
-    rw_trim HS t2 X2 N2.
+    rw_trim HS t2 X2 N2. cbn [map] in HS.
+    rewrite !rstrip_strip_cr, sphinx_v1_fold_strip in HS.
     rewrite (dec_some _ _ E2). cbn [ibind].
     unfold ReaderProofs.a_readlines. rewrite (decode_lines_skip _ _ P2). cbn [fst snd].
     destruct (v1_fold_agree uri _ _ (trim_last X2) [] [] sinv (agree_nil uri) HS) as [FN [objs' [FO A]]].
@@ -531,7 +571,7 @@ Proof.
     destruct (map_decode_cons _ _ _ P1) as [t2 [X2 [EX2 [E2 P2]]]]. rewrite EX2 in HS.
     destruct X2; [|discriminate]. cbn [trim_last] in HS.
     rewrite (dec_some _ _ E2). cbn [ibind].
-    destruct (is_nil t2); [discriminate|]. cbn [sphinx_fold_v1] in HS. inversion HS; subst sinv.
+    destruct (is_nil t2); [discriminate|]. cbn [map sphinx_fold_v1] in HS. inversion HS; subst sinv.
     cbn. eexists. split; [reflexivity |]. split; [apply agree_nil | apply all_pv_nil].
 Qed.
 
@@ -539,7 +579,7 @@ Qed.
 
 Theorem agrees_with_sphinx cs uri base sinv :
   Forall (fun l => decode l <> None) (firstn 4 (bsplit_nl 4 (live cs))) ->
-  (forall text, sphinx_text (live cs) = Some text -> nosep text) ->
+  (forall text, sphinx_text (live cs) = Some text -> crlf_only text) ->
   sphinx_loads (live cs) uri = IOk sinv ->
   exists inv, load cs base = IOk inv /\ agree uri (inv_objects inv) sinv /\
               (plain_header (live cs) -> same_project inv sinv).
